@@ -344,7 +344,21 @@ func (in *Interp) Eval(n *Node, env *Env) (Value, *Err) {
 		}
 		return in.Call(c, args)
 	case KStatic:
-		// a local binding shadows nothing here: static names are reserved by the generators
+		// the nearest enclosing binding wins: a local named like a static function hides it
+		if fv, ok := env.Lookup(n.Name); ok {
+			c, ok := fv.(*Closure)
+			if !ok {
+				return nil, errf("not a function: %s", TypeName(fv))
+			}
+			if c.Arity != len(n.Args) {
+				return nil, errf("wrong number of arguments")
+			}
+			args, e := in.evalArgs(n.Args, env)
+			if e != nil {
+				return nil, e
+			}
+			return in.Call(c, args)
+		}
 		if a, ok := staticArity[n.Name]; ok && a != len(n.Args) {
 			// checked when the function is generated, i.e. before anything is evaluated
 			return nil, errf("wrong number of arguments at call of %s", n.Name)
